@@ -125,7 +125,9 @@ def tables():
     al = {'---': 'left', ':--': 'left', '--:': 'right', ':-:': 'center', '-': 'left', ':-': 'left', '-:': 'right', ' :---: ': 'center', '----------': 'left'}
     delim_sets = [('---', '---'), (':--', '--:'), (':-:', '-'), ('-:', ':-'), (' :---: ', '----------')]
     pipe_styles = ('both', 'none', 'lead', 'trail', 'tight')
-    bodies = [[], [['c', 'd']], [['c', 'd'], ['e', 'f']], [['c']], [['', 'd']], [['a\\|b', '`x\\|y`']], [['*e*', '<b>']]]
+    bodies = [[], [['c', 'd']], [['c', 'd'], ['e', 'f']], [['c']], [['', 'd']], [['a\\|b', '`x\\|y`']], [['*e*', '<b>']],
+              # an escaped pipe touching the edge of the row (with the 'none' / 'lead' / 'trail' styles there is no border pipe next to it)
+              [['c', 'y\\|']], [['\\|c', 'd']], [['\\|', '\\|']]]
 
     def row(cells, style, short=False):
         if style == 'tight':
@@ -158,7 +160,7 @@ def tables():
 
 
 def cell_html(c):
-    return {'a\\|b': 'a|b', '`x\\|y`': '<code>x|y</code>', '*e*': '<em>e</em>', '<b>': '<b>'}.get(c, esc(c))
+    return {'y\\|': 'y|', '\\|c': '|c', '\\|': '|', 'a\\|b': 'a|b', '`x\\|y`': '<code>x|y</code>', '*e*': '<em>e</em>', '<b>': '<b>'}.get(c, esc(c))
 
 
 # ------------------------------------------------------------------------------------------- paragraphs (4.8)
